@@ -556,6 +556,53 @@ int main(int argc, char** argv) {
       std::free(block);
       return;
     }
+    if (f.name == "H4_two_documents_one_pool") {
+      unsigned mode = (unsigned)(idx % 3);
+      uint64_t r0 = idx / 3;
+      const std::string& X = hs.S[r0 / hs.S.size()];
+      const std::string& Y = hs.S[r0 % hs.S.size()];
+      ctx.eval();
+      ctx.nontriv();
+      std::string desc = "mode " + std::to_string(mode) + ": X=" + X.substr(0, 200) + " ; Y=" + Y.substr(0, 200);
+      if (ctx.want_sample) ctx.sample(desc);
+      ref::Result rx = ref::parse(X), ry = ref::parse(Y);
+      ExactBuf bx(X), by(Y);
+      auto holds = [&](const Document& d, const ref::Result& r, const char* who, const char* stage) {
+        if (r.ok) {
+          if (d.HasParseError()) {
+            ctx.violation("two_docs_one_pool", "two_docs_one_pool_rejects", desc, "%s %s: a valid text was rejected (code %d)", who, stage, (int)d.GetParseError());
+            return;
+          }
+          std::string dd = sc::compare(d, r.v);
+          if (!dd.empty()) ctx.violation("two_docs_one_pool", "two_docs_one_pool_value", desc, "%s %s: %s", who, stage, dd.c_str());
+        } else if (!d.HasParseError() || !d.IsNull())
+          ctx.violation("two_docs_one_pool", "two_docs_one_pool_error_state", desc, "%s %s: invalid text left error=%d isnull=%d", who, stage, (int)d.GetParseError(), (int)d.IsNull());
+      };
+      {
+        MemoryPoolAllocator<> pool;
+        std::unique_ptr<Document> d1(new Document(&pool)), d2(new Document(&pool));
+        d1->Parse(bx.p, bx.n);
+        d2->Parse(by.p, by.n);
+        holds(*d1, rx, "d1", "after both parsed");
+        holds(*d2, ry, "d2", "after both parsed");
+        if (mode == 1) {
+          d1->Parse(by.p, by.n);
+          holds(*d2, ry, "d2", "after d1 parsed again");
+          holds(*d1, ry, "d1", "after parsing Y");
+          d1->Parse(bx.p, bx.n);
+          holds(*d2, ry, "d2", "after d1 parsed a third time");
+          holds(*d1, rx, "d1", "after parsing X again");
+        } else if (mode == 2) {
+          d1.reset();
+          holds(*d2, ry, "d2", "after d1 was destroyed");
+          Document d3(&pool);
+          d3.Parse(bx.p, bx.n);
+          holds(*d2, ry, "d2", "after a third document parsed X");
+          holds(d3, rx, "d3", "after parsing X");
+        }
+      }
+      return;
+    }
     if (f.name == "H1_outcome_after_history") {
       const std::string& X = hs.S[idx / hs.S.size()];
       const std::string& Y = hs.S[idx % hs.S.size()];
@@ -646,9 +693,18 @@ int main(int argc, char** argv) {
   fpu.group = "PU";
   fpu.chunk = 256;
   fpu.rule = "Document over MemoryPoolAllocator(buffer + k, size) for every misalignment k in 0..7 and size in {512, 1024}, the buffer ending at the end of its heap block (ASan red zone / canary bytes behind it); text '[' + n spaces + m elements '1' + ']' for every n in 0..231 and m in 0..49, so that input copy + element array end at every offset around the end of the buffer: nothing outside the buffer is touched, value equal to the reference";
+  // H4: TWO documents over ONE pool allocator object (Document(&pool)): what one document does - parse, fail,
+  // re-parse, die - must leave the other's value alone
+  vr::Family fh4;
+  fh4.name = "H4_two_documents_one_pool";
+  fh4.count = (uint64_t)hs.S.size() * hs.S.size() * 3;
+  fh4.group = "H4";
+  fh4.chunk = 64;
+  fh4.rule = "all ordered pairs (X,Y) over the history text set, two documents d1, d2 constructed over ONE MemoryPoolAllocator object, 3 histories (d1.Parse X ; d2.Parse Y | ... ; d1.Parse Y ; d1.Parse X | ... ; destroy d1 ; d3.Parse X): after every step every live document holds exactly the value of its last accepted text (read back through the accessors) or is null with its error set; ASan";
   if (prop == "C02") {
     fams.push_back(fpairs);
     fams.push_back(fpu);
+    fams.push_back(fh4);
     if (!quick) fams.push_back(ftriples);
   }
   if (prop == "C03") fams.push_back(fhv);
